@@ -93,7 +93,13 @@ class Exec:
             paths = sorted(files)
             olds = {p: w.read(repo, p) for p in paths}
             codes = []
-            if (who != HUMAN and not op.get("skip_pre_ckpt")) or op.get("pre_ckpt"):
+            claude = who != HUMAN and op.get("agent") == "claude"
+            if claude:
+                if op.get("transcript"):
+                    w.claude_append_transcript(who, op["transcript"])
+                for p1 in paths:
+                    codes.append(w.ckpt_claude(repo, [p1], who, "PreToolUse", env=env).code)
+            elif (who != HUMAN and not op.get("skip_pre_ckpt")) or op.get("pre_ckpt"):
                 codes.append(w.ckpt_human(repo, paths, env=env).code)
             for p in paths:
                 c = files[p]
@@ -115,7 +121,13 @@ class Exec:
                     hr = w.raw_git(repo, "show", "HEAD:" + p)
                     if hr.code == 0:
                         self.ledger.ws_change_of_committed(olds[p], c, hr.out, who)
-            if who != HUMAN:
+            if claude:
+                w.tick(op.get("dt2", 7))
+                for p1 in paths:
+                    r = w.ckpt_claude(repo, [p1], who, "PostToolUse", env=env)
+                    codes.append(r.code)
+                res["err"] = r.err[-400:]
+            elif who != HUMAN:
                 w.tick(op.get("dt2", 7))
                 r = w.ckpt_ai(repo, paths, who, transcript=op.get("transcript"),
                               model=op.get("model", "m1"), tool=op.get("tool", "simagent"), env=env)
